@@ -29,6 +29,10 @@ struct Under {
     wfail: Vec<usize>,
     ffail: Vec<usize>,
     short: usize, // max bytes accepted per write call (0 = unlimited)
+    /// continuation calls (a `write` in the middle of a line, after a short write) that fail with WouldBlock: the line is torn
+    midfail: Vec<usize>,
+    midcalls: usize,
+    cur: Option<(u64, u64)>,
     wcalls: usize,
     fcalls: usize,
     pending: Vec<u8>,
@@ -73,7 +77,19 @@ impl Write for Under {
         }
         // a call that begins a new line counts as one attempt on that line
         let begins = self.pending.is_empty();
+        if !begins {
+            self.midcalls += 1;
+            if self.midfail.contains(&self.midcalls) {
+                // the rest of this line is refused: a failed attempt of that line (the bytes already taken stay where they are)
+                let id = self.cur;
+                self.log.push(json!({"ev": "w.fail", "p": id.map(|x| x.0).unwrap_or(0), "i": id.map(|x| x.1).unwrap_or(0), "mid": true}));
+                self.attempts.fetch_add(1, Ordering::SeqCst);
+                self.pending.clear();
+                return Err(io::Error::new(io::ErrorKind::WouldBlock, "injected: would block"));
+            }
+        }
         if begins {
+            self.cur = parse_line(buf);
             self.wcalls += 1;
             if self.wfail.contains(&self.wcalls) {
                 // identify the line from the full buffer the worker handed us (write_all passes the whole line first)
@@ -141,6 +157,9 @@ fn child() {
         wfail: idx("wfail"),
         ffail: idx("ffail"),
         short: sc["short"].as_u64().unwrap_or(0) as usize,
+        midfail: idx("midfail"),
+        midcalls: 0,
+        cur: None,
         wcalls: 0,
         fcalls: 0,
         pending: vec![],
@@ -154,7 +173,19 @@ fn child() {
     let (nb, guard) = match sc["ctor"].as_str().unwrap_or("builder") {
         "new" => tracing_appender::non_blocking::NonBlocking::new(under),
         "fn" => tracing_appender::non_blocking(under),
-        _ => NonBlockingBuilder::default().buffered_lines_limit(sc["k"].as_u64().unwrap() as usize).lossy(lossy).finish(under),
+        _ => {
+            // the builder's setters in the order the scenario names (each must keep what was set before)
+            let mut b = NonBlockingBuilder::default();
+            let order: Vec<String> = sc["builder_order"].as_array().map(|a| a.iter().map(|x| x.as_str().unwrap().to_string()).collect()).unwrap_or_else(|| vec!["limit".into(), "lossy".into()]);
+            for o in &order {
+                b = match o.as_str() {
+                    "limit" => b.buffered_lines_limit(sc["k"].as_u64().unwrap() as usize),
+                    "lossy" => b.lossy(lossy),
+                    _ => b.thread_name("vh-appender-worker"),
+                };
+            }
+            b.finish(under)
+        }
     };
     let via_make_writer = sc["make_writer"].as_bool().unwrap_or(false);
     let use_write_all = sc["write_all"].as_bool().unwrap_or(false);
